@@ -227,6 +227,15 @@ impl PPRF for GGM {
   }
 }
 
+#[cfg(feature = "verif-hooks")]
+impl GGM {
+  /// Verification hook: bincode form of the retained key material
+  /// (PRG keys, retained prefixes with their seeds, punctured inputs).
+  pub fn verif_key_state(&self) -> Vec<u8> {
+    bincode::serialize(&self.key).expect("key state serializes")
+  }
+}
+
 fn sample_secret() -> Vec<u8> {
   let mut out = vec![0u8; 32];
   OsRng.fill(out.as_mut_slice());
